@@ -9,7 +9,7 @@ import json, subprocess
 import vlib, sess
 from astlib import *
 
-SHAPES = ("globals", "locals", "jump", "refused-then-continue")
+SHAPES = ("globals", "locals", "jump", "longjump", "refused-then-continue")
 
 
 def script(shape, n):
@@ -34,6 +34,11 @@ def script(shape, n):
     if shape == "jump":
         body = "\n".join("l = 1" for _ in range(n))
         return ["f = () -> {\n%s\nl\n}" % body, "f()", "1 + 1"], None
+    if shape == "longjump":
+        # a conditional whose body is n instructions long and uses no constants (so that the data segment is not what overflows):
+        # the jump over the body is about n; with c false the body must be skipped, with c true executed
+        body = "\n".join("l = m" for _ in range(n))
+        return ["f = (c) -> {\nm = 1\nl = 0\nif c {\n%s\nl = 5\n}\nl\n}" % body, "f(false)", "f(true)", "1 + 1"], None
     if shape == "refused-then-continue":
         # a function with more distinct locals than can be addressed (refused whatever the compiler's economy), whose body is the
         # first place two global names are mentioned; the session then goes on using those names and others
@@ -103,8 +108,8 @@ def run(tier, replay=None):
     for v in vecs[:: max(1, len(vecs) // 4)][:4]:
         ck.sample(v)
     # ---- scripts crossing the limits
-    sizes = {"quick": {"globals": [8000, 16300, 16400], "locals": [16000, 32700, 32800], "jump": [16000, 32700, 32800], "refused-then-continue": [33000]},
-             "thorough": {"globals": [4000, 8000, 16000, 16370, 16380, 16390, 16400, 20000, 33000], "locals": [8000, 16000, 32000, 32760, 32766, 32770, 33000, 65530, 65540], "jump": [8000, 16000, 32000, 32760, 32770, 33000, 65530, 65540], "refused-then-continue": [32769, 33000, 66000]}}[tier]
+    sizes = {"quick": {"globals": [8000, 16300, 16400], "locals": [16000, 32700, 32800], "jump": [16000, 32700, 32800], "refused-then-continue": [33000], "longjump": [16000, 33000, 66000]},
+             "thorough": {"globals": [4000, 8000, 16000, 16370, 16380, 16390, 16400, 20000, 33000], "locals": [8000, 16000, 32000, 32760, 32766, 32770, 33000, 65530, 65540], "jump": [8000, 16000, 32000, 32760, 32770, 33000, 65530, 65540], "refused-then-continue": [32769, 33000, 66000], "longjump": [8000, 16000, 32760, 32770, 33000, 65530, 65540, 66000, 131100]}}[tier]
     # ds0: data segment size after the built-ins are loaded, measured on the real pipeline
     probe = vlib.run_real([{"id": 1, "items": [{"src": "1"}], "stdin": []}])
     cases = []
@@ -161,6 +166,15 @@ def run(tier, replay=None):
             xo = res[n]
             if desc is None and xo["kind"] == "val" and xo["val"] != {"k": "int", "v": lastok}:
                 desc = "after the script x is %s, the last accepted assignment was x = %d" % (json.dumps(xo["val"]), lastok)
+        elif shape == "longjump":
+            d0, d1, d2, d3 = res[0], res[1], res[2], res[3]
+            if d0["kind"] == "val":
+                if d1.get("val") != {"k": "int", "v": 0}:
+                    desc = "the function was compiled but f(false) gives %s instead of 0: the jump over the body wrapped" % json.dumps({k: d1.get(k) for k in ("kind", "val", "err")})
+                elif d2.get("val") != {"k": "int", "v": 5}:
+                    desc = "the function was compiled but f(true) gives %s instead of 5" % json.dumps({k: d2.get(k) for k in ("kind", "val", "err")})
+            if desc is None and d3.get("val") != I2:
+                desc = "after the large function the session does not go on: 1 + 1 gives %s" % json.dumps({k: d3.get(k) for k in ("kind", "val", "err", "msg")})
         elif shape == "refused-then-continue":
             want_vals = [{"k": "int", "v": 1}, None, {"k": "int", "v": 1}, {"k": "int", "v": 100}, {"k": "arr", "v": [{"k": "int", "v": 1}, {"k": "int", "v": 100}]}, {"k": "int", "v": 2}, {"k": "int", "v": 5},
                          {"k": "arr", "v": [{"k": "int", "v": 2}, {"k": "int", "v": 100}, {"k": "int", "v": 5}, {"k": "int", "v": 1}]}, I2]
